@@ -12,7 +12,17 @@ between "a recalcDeps cell changes value" and "none of them was written or recom
                                   column depends on itself: then it is recalculated from it)
    C15.schema_change_no_trigger   renames of dependencies / tables / labels change no counter
 MAY cases accept old or old + 1.  Configuration (recalcWhen, recalcDeps) is read from the metadata
-before each action."""
+before each action.
+
+Every bundle of record actions / renames is checked against EVERY table that has counter columns:
+the table the action is about with model() / model_multi(), every OTHER table with model_other()
+("and never otherwise": an action on another table is no user-requested update of this table's
+rows, so MANUAL_UPDATES and NEVER columns stay silent whatever recalcDeps list is stored on them;
+DEFAULT columns fire exactly when a dependency cell of the row changed - a formula column reading
+the other table, a reference cleared because its target record was removed).  Seed document
+c15_cross has MANUAL_UPDATES / NEVER columns WITH stored recalcDeps (schema.py: the list "only
+applies when recalcWhen is DEFAULT"), dependencies that are formula columns reading another table
+and Ref columns whose targets get removed."""
 import json, os, re, sys
 sys.path.insert(0, os.path.dirname(os.path.dirname(os.path.abspath(__file__))))
 from vlib import common
@@ -139,6 +149,49 @@ def model(action, table_id, pre_rows, post_rows, trig, fin, col_map):
   return None
 
 
+def cross_formulas(e, table_id, fin):
+  """Formula columns of the table whose value may change without any write to the table itself:
+  the formula follows a reference ($r.x), names a table, or reads such a column."""
+  tref = eng.table_ref(e, table_id)
+  text = {c["colId"]: c["formula"] or "" for c in eng.meta_records(e, "_grist_Tables_column")
+          if c["parentId"] == tref and c["isFormula"]}
+  names = set(eng.user_tables(e))
+  cross = {c for c, f in text.items()
+           if re.search(r"(?:\$|rec\.)\w+\s*\.", f) or (set(re.findall(r"\b[A-Za-z_]\w*\b", f)) & names)}
+  grew = True
+  while grew:
+    grew = False
+    for c in fin:
+      if c not in cross and fin[c] & cross:
+        cross.add(c); grew = True
+  return cross
+
+
+def model_other(names, pre_rows, post_rows, trig, fin, cross, ref_cols):
+  """Expectations for a table NONE of whose records the bundle's user actions address (record
+  actions / renames on other tables only).  ref_cols: data columns of type Ref / RefList (the only
+  data cells of this table such a bundle may rewrite: cleared when the target record is removed)."""
+  if set(pre_rows) != set(post_rows): return None
+  tcols = {c: k for c, k in trig.items() if k is not None}
+  schema_only = all(n in ("RenameColumn", "RenameTable") for n in names)
+  exp = []
+  for r in pre_rows:
+    for c, k in tcols.items():
+      o = pre_rows[r].get(c)
+      if not _is_int(o) and o is not None: return None
+      if schema_only:
+        exp.append((r, c, {o}, "C15.schema_change_no_trigger")); continue
+      if k["when"] != DEFAULT:
+        exp.append((r, c, {o}, "C15.silent_otherwise")); continue
+      deps = [d for d in k["deps"] if d != c]
+      must = any(post_rows[r].get(d) != pre_rows[r].get(d) for d in deps)
+      may = any(d in cross or d in ref_cols for d in deps)
+      if must: exp.append((r, c, {(o or 0) + 1}, "C15.fires_when_required"))
+      elif may: exp.append((r, c, {o, (o or 0) + 1}, "C15.silent_otherwise"))
+      else: exp.append((r, c, {o}, "C15.silent_otherwise"))
+  return exp
+
+
 NEED = {"NO": 0, "MAY": 1, "MUST": 2}
 
 
@@ -240,12 +293,37 @@ gen.SEEDS["c15_counters"] = [
   [["BulkAddRecord", "A", [None, None, None], {"n": [1, 2, 3], "m": [5, 6, 7], "s": ["a", "b", "c"]}]],
 ]
 
-VALS = {"n": [0, 1, 2, 3, 4, 7], "m": [5, 6, 7, 8], "s": ["a", "b", "c", "d", ""]}
+# Two tables.  R(rate) is "the other table"; A has a reference into it, a formula column following
+# the reference (g), one looking R up (h), a row-local one (f), and counters of every mode WITH a
+# stored recalcDeps list.  Column refs: R: manualSort 1, rate 2; A: manualSort 3, n 4, s 5, r 6, f 7,
+# g 8, h 9, then the counters 10.. in the order of CROSS_COUNTERS.
+CROSS_COUNTERS = [            # (colId, recalcWhen, recalcDeps as colIds)
+  ("d_n", DEFAULT, ["n"]), ("d_r", DEFAULT, ["r"]), ("d_g", DEFAULT, ["g"]), ("d_h", DEFAULT, ["h"]),
+  ("m_n", MANUAL, ["n"]), ("m_r", MANUAL, ["r"]), ("m_g", MANUAL, ["g"]), ("m_h", MANUAL, ["h", "f"]),
+  ("v_n", NEVER, ["n"]), ("v_r", NEVER, ["r", "g"]), ("v_h", NEVER, ["h"]),
+]
+_CROSS_REF = dict({"n": 4, "s": 5, "r": 6, "f": 7, "g": 8, "h": 9},
+                  **{c: 10 + i for i, (c, _w, _d) in enumerate(CROSS_COUNTERS)})
+gen.SEEDS["c15_cross"] = [
+  [["AddTable", "R", [_col("rate", "Int")]],
+   ["AddTable", "A", [_col("n", "Int"), _col("s", "Text"), _col("r", "Ref:R"),
+                      _col("f", "Any", "$n * 2 if $n else 0"), _col("g", "Any", "$r.rate"),
+                      _col("h", "Any", "len(R.lookupRecords(rate=$n))")]
+                     + [_cnt(c) for c, _w, _d in CROSS_COUNTERS]]],
+  [["BulkUpdateRecord", "_grist_Tables_column", [_CROSS_REF[c] for c, _w, _d in CROSS_COUNTERS],
+    {"recalcWhen": [w for _c, w, _d in CROSS_COUNTERS],
+     "recalcDeps": [["L"] + [_CROSS_REF[d] for d in deps] for _c, _w, deps in CROSS_COUNTERS]}]],
+  [["BulkAddRecord", "R", [None, None, None], {"rate": [1, 2, 2]}]],
+  [["BulkAddRecord", "A", [None, None, None], {"n": [1, 2, 3], "s": ["a", "b", "c"], "r": [1, 2, 3]}]],
+]
+
+VALS = {"n": [0, 1, 2, 3, 4, 7], "m": [5, 6, 7, 8], "s": ["a", "b", "c", "d", ""], "r": [0, 1, 2, 3, 4],
+        "rate": [0, 1, 2, 3, 7]}
 NAMES = ["n", "m", "x", "nn", "dep", "s", "t1", "New Col", "q"]
 
 
 class C15Monitor(explore.Monitor):
-  seeds = ("c15_counters",)
+  seeds = ("c15_counters", "c15_cross")
   length = 12
   weights = {"add": 12, "update": 16, "bulk_update": 8, "remove": 4, "rename_col": 5, "bulk_add": 5,
              "rename_table": 2, "add_col": 2, "add_formula_col": 1, "label": 2,
@@ -268,6 +346,10 @@ class C15Monitor(explore.Monitor):
     t = self._table(e)
     if t is None or rng.random() < 0.15:
       return g.bundle(e)
+    others = [x for x in eng.user_tables(e) if x != t and not any(config(e, x)[0].values())]
+    if others and rng.random() < 0.35:
+      b = self.other_table_bundle(e, rng, rng.choice(others))
+      if b: return b
     trig, fin = config(e, t)
     rows = list(e.tables[t].row_ids)
     cur = table_rows(e, t)
@@ -327,8 +409,89 @@ class C15Monitor(explore.Monitor):
       return [["RenameColumn", t, rng.choice(cols), rng.choice(NAMES)]]
     return [["RenameTable", t, rng.choice(["A", "B", "Renamed", "T2"])]]
 
+  def other_table_bundle(self, e, rng, o):
+    """Actions on a table WITHOUT trigger columns that other tables refer to / look up: updates
+    (recompute formula cells elsewhere), removals (clear references elsewhere), adds, renames."""
+    rows = list(e.tables[o].row_ids)
+    data = [(c.colId, c.type) for c in e.schema[o].columns.values()
+            if not c.isFormula and c.colId != "manualSort"]
+    def val(c, typ):
+      pool = VALS.get(c)
+      if pool is None: pool = VALS["s"] if typ == "Text" else VALS["n"]
+      return rng.choice(pool)
+    def update():
+      r = rng.choice(rows)
+      cols = rng.sample(data, rng.randint(1, min(2, len(data))))
+      return ["UpdateRecord", o, r, {c: val(c, typ) for c, typ in cols}]
+    x = rng.random()
+    if x < 0.4 and rows and data: return [update()]
+    if x < 0.5 and rows and data: return [update() for _ in range(rng.randint(2, 3))]
+    if x < 0.6 and rows and data:
+      rs = rng.sample(rows, rng.randint(1, min(3, len(rows))))
+      c, typ = rng.choice(data)
+      return [["BulkUpdateRecord", o, rs, {c: [val(c, typ) for _ in rs]}]]
+    if x < 0.75 and data:
+      return [["AddRecord", o, None, {c: val(c, typ) for c, typ in data}]]
+    if x < 0.88 and rows:
+      if len(rows) > 2 and rng.random() < 0.3:
+        return [["BulkRemoveRecord", o, rng.sample(rows, 2)]]
+      return [["RemoveRecord", o, rng.choice(rows)]]
+    if x < 0.96 and data:
+      return [["RenameColumn", o, rng.choice(data)[0], rng.choice(NAMES)]]
+    return [["RenameTable", o, rng.choice(["R", "Rates", "Other"])]]
+
+  RECORD_ACTIONS = ("AddRecord", "BulkAddRecord", "UpdateRecord", "BulkUpdateRecord", "RemoveRecord",
+                    "BulkRemoveRecord", "RenameColumn", "RenameTable")
+
+  def watch_other_tables(self, st, e, bundle):
+    """Ghost state for model_other: every table with counter columns that no action of the bundle
+    addresses (only for bundles made of record actions / renames on existing user tables)."""
+    st["others"] = []
+    if not bundle or not all(isinstance(x, list) and len(x) >= 3 and x[0] in self.RECORD_ACTIONS
+                             and isinstance(x[1], str) and x[1] in e.tables
+                             and not x[1].startswith("_grist_") for x in bundle):
+      return
+    acted = {x[1] for x in bundle}
+    for w in eng.user_tables(e):
+      if w in acted: continue
+      trig, fin = config(e, w)
+      if not any(trig.values()): continue
+      ref_cols = {c.colId for c in e.schema[w].columns.values()
+                  if not c.isFormula and c.type.startswith(("Ref:", "RefList:"))}
+      st["others"].append((w, eng.table_ref(e, w), table_rows(e, w), trig, fin,
+                           cross_formulas(e, w, fin), ref_cols))
+
+  def check_other_tables(self, st, e, bundle):
+    names = sorted(set(x[0] for x in bundle))
+    tabs = {x["id"]: x["tableId"] for x in eng.meta_records(e, "_grist_Tables")}
+    for (w, tref, pre_rows, trig, fin, cross, ref_cols) in st.get("others") or []:
+      w_now = tabs.get(tref)
+      if w_now is None or w_now not in e.tables: continue
+      post_rows = table_rows(e, w_now)
+      try:
+        exp = model_other(names, pre_rows, post_rows, trig, fin, cross, ref_cols)
+      except Exception as ex:
+        return [("C15.model_error", {"error": repr(ex), "action": bundle})]
+      if exp is None:
+        ST["unmodelled"] += 1; continue
+      ST["other_table_bundles_checked"] += 1
+      for (r, c, allowed, clause) in exp:
+        ST["other_table_cells_checked"] += 1
+        if len(allowed) == 1 and clause == "C15.fires_when_required": ST["other_table_must_fire"] += 1
+        got = post_rows.get(r, {}).get(c)
+        if got not in allowed or isinstance(got, bool):
+          k = trig[c]
+          return [(clause, {
+            "action": ["OTHER-TABLE:" + "+".join(names), bundle], "table": w, "row": r, "column": c,
+            "recalcWhen": k["when"], "recalcDeps": sorted(k["deps"]), "depends_on_itself": k["selfdep"],
+            "before": pre_rows[r].get(c), "after": got, "allowed": sorted(allowed, key=repr),
+            "row_before": {x: repr(v) for x, v in pre_rows[r].items()},
+            "row_after": {x: repr(v) for x, v in post_rows.get(r, {}).items()}})]
+    return []
+
   def before(self, st, e, bundle):
     st["case"] = None
+    self.watch_other_tables(st, e, bundle)
     if len(bundle) > 1:
       if not all(len(x) == 4 and x[0] in ("UpdateRecord", "BulkUpdateRecord") and x[1] == bundle[0][1]
                  and isinstance(x[3], dict) for x in bundle): return
@@ -357,6 +520,11 @@ class C15Monitor(explore.Monitor):
 
   def after(self, st, e, bundle, group, exc):
     case, st["case"] = st.get("case"), None
+    if exc is None and st.get("others"):
+      bad = self.check_other_tables(st, e, bundle)
+      if bad:
+        _flush()
+        return bad
     if not case or exc is not None: return []
     a, t, tref, pre_rows, trig, fin, refs = case
     tabs = {x["id"]: x["tableId"] for x in eng.meta_records(e, "_grist_Tables")}
@@ -439,7 +607,8 @@ class C15Monitor(explore.Monitor):
 
 
 ST = {"actions_checked": 0, "cells_checked": 0, "must_fire": 0, "unmodelled": 0,
-      "multi_action_bundles_checked": 0}
+      "multi_action_bundles_checked": 0, "other_table_bundles_checked": 0,
+      "other_table_cells_checked": 0, "other_table_must_fire": 0}
 _REPORTED = set()
 _KNOWN = []
 
@@ -478,15 +647,29 @@ def main():
     "from an earlier action followed by an explicit write is MAY). Actions the model does not cover "
     "(other multi-action bundles, writes to formula columns, non-integer explicit values, "
     "configuration changes) are skipped (counted)",
+    "seed document c15_cross: R(rate) and A(n, s, r: Ref:R, f=$n*2, g=$r.rate, "
+    "h=len(R.lookupRecords(rate=$n))) with eleven counters: DEFAULT with recalcDeps [n], [r], [g], [h]; "
+    "MANUAL_UPDATES and NEVER WITH stored recalcDeps ([n], [r], [g], [h, f], [r, g]); about a third of "
+    "its bundles act on R only (1-3 record updates, bulk update, add, removal of one or two records - "
+    "which clears A.r -, renames of R.rate / R) and are checked against table A with model_other: "
+    "MANUAL_UPDATES / NEVER counters unchanged, DEFAULT counters +1 exactly when a dependency cell "
+    "of the row differs afterwards, MAY when a dependency is a formula reading another table or a "
+    "reference column and its value is the same afterwards, renames change nothing",
     "a recalculation is observed as +1 of a counter formula; only Int trigger columns whose formula "
     "is exactly `(value or 0) + 1` are modelled"]
   rep.coverage["rule"] = (
-    "one evaluation = one single-action bundle checked against the model on every (row, counter "
-    "column); non-trivial = the bundle changed the document")
+    "one evaluation = one bundle checked against the model of one table on every (row, counter "
+    "column) of that table (the table the bundle is about, and every other table with counters); "
+    "non-trivial = the bundle changed the document")
   d = tempfile.mkdtemp(prefix="c15-count-")
   os.environ["C15_COUNT_DIR"] = d
   tot = dict.fromkeys(ST, 0)
   try:
+    # the first column rename of a process spends seconds filling astroid's caches: do it once here,
+    # before the workers are forked, instead of once in every worker (bundle time limit under load)
+    w = eng.new_engine()
+    for b in gen.seed_history("c15_cross"): eng.apply(w, b)
+    eng.apply(w, [["RenameColumn", "R", "rate", "q"]])
     explore.explore(rep, "checks.C15", "C15Monitor", n_quick=600, n_thorough=8000,
                     budget_quick_s=50, budget_thorough_s=800)
     for f in os.listdir(d):
@@ -502,9 +685,15 @@ def main():
   cov["cells_required_to_fire"] = tot["must_fire"]
   cov["actions_outside_the_model"] = tot["unmodelled"]
   cov["multi_action_bundles_checked"] = tot["multi_action_bundles_checked"]
+  cov["other_table_bundles_checked"] = tot["other_table_bundles_checked"]
+  cov["other_table_cells_checked"] = tot["other_table_cells_checked"]
+  cov["other_table_cells_required_to_fire"] = tot["other_table_must_fire"]
+  cov["evaluations"] += tot["other_table_bundles_checked"]
   cov["exhaustive"] = False
   if tot["actions_checked"] == 0:
     rep.undecided_obligation("C15.fires_when_required", "no action was checked against the model")
+  if tot["other_table_bundles_checked"] == 0:
+    rep.undecided_obligation("C15.silent_otherwise", "no action on another table was checked")
   return rep.finish()
 
 
